@@ -544,6 +544,7 @@ class _SetOperation(Selectable, Term):  # type:ignore[misc]
 
     @builder
     def orderby(self, *fields: Field, **kwargs: Any) -> "Self":  # type:ignore[return]
+        self._orderbys = list(self._orderbys)
         for field in fields:
             field = (
                 Field(field, table=self.base_query._from[0])  # type:ignore[assignment]
@@ -563,23 +564,33 @@ class _SetOperation(Selectable, Term):  # type:ignore[misc]
 
     @builder
     def union(self, other: Selectable) -> "Self":  # type:ignore[return]
-        self._set_operation.append((SetOperation.union, other))  # type:ignore[arg-type]
+        self._set_operation = self._set_operation + [
+            (SetOperation.union, other)  # type:ignore[list-item]
+        ]
 
     @builder
     def union_all(self, other: Selectable) -> "Self":  # type:ignore[return]
-        self._set_operation.append((SetOperation.union_all, other))  # type:ignore[arg-type]
+        self._set_operation = self._set_operation + [
+            (SetOperation.union_all, other)  # type:ignore[list-item]
+        ]
 
     @builder
     def intersect(self, other: Selectable) -> "Self":  # type:ignore[return]
-        self._set_operation.append((SetOperation.intersect, other))  # type:ignore[arg-type]
+        self._set_operation = self._set_operation + [
+            (SetOperation.intersect, other)  # type:ignore[list-item]
+        ]
 
     @builder
     def except_of(self, other: Selectable) -> "Self":  # type:ignore[return]
-        self._set_operation.append((SetOperation.except_of, other))  # type:ignore[arg-type]
+        self._set_operation = self._set_operation + [
+            (SetOperation.except_of, other)  # type:ignore[list-item]
+        ]
 
     @builder
     def minus(self, other: Selectable) -> "Self":  # type:ignore[return]
-        self._set_operation.append((SetOperation.minus, other))  # type:ignore[arg-type]
+        self._set_operation = self._set_operation + [
+            (SetOperation.minus, other)  # type:ignore[list-item]
+        ]
 
     def __add__(self, other: Selectable) -> "Self":  # type:ignore[override]
         return self.union(other)
@@ -752,6 +763,8 @@ class QueryBuilder(Selectable, Term):  # type:ignore[misc]
         newone._from = copy(self._from)
         newone._with = copy(self._with)
         newone._selects = copy(self._selects)
+        newone._force_indexes = copy(self._force_indexes)
+        newone._use_indexes = copy(self._use_indexes)
         newone._columns = copy(self._columns)
         newone._values = copy(self._values)
         newone._groupbys = copy(self._groupbys)
@@ -1150,8 +1163,10 @@ class QueryBuilder(Selectable, Term):  # type:ignore[misc]
             self._groupbys += terms  # type:ignore[arg-type]
 
         elif 0 < len(self._groupbys) and isinstance(self._groupbys[-1], Rollup):
-            # If a rollup was added last, then append the new terms to the previous rollup
-            self._groupbys[-1].args += terms
+            # If a rollup was added last, then append the new terms to (a copy of) the previous rollup
+            rollup = copy(self._groupbys[-1])
+            rollup.args = rollup.args + list(terms)
+            self._groupbys[-1] = rollup
 
         else:
             self._groupbys.append(Rollup(*terms))  # type:ignore[arg-type]
@@ -2018,6 +2033,7 @@ class CreateQueryBuilder:
         if self._as_select:
             raise AttributeError("'Query' object already has attribute as_select")
 
+        self._columns = list(self._columns)
         for column in columns:
             if isinstance(column, str):
                 column = Column(column)
@@ -2044,7 +2060,7 @@ class CreateQueryBuilder:
         :return:
             CreateQueryBuilder.
         """
-        self._period_fors.append(PeriodFor(name, start_column, end_column))
+        self._period_fors = self._period_fors + [PeriodFor(name, start_column, end_column)]
 
     @builder
     def unique(self, *columns: str | Column) -> "Self":  # type:ignore[return]
@@ -2059,9 +2075,9 @@ class CreateQueryBuilder:
         :return:
             CreateQueryBuilder.
         """
-        self._uniques.append(
+        self._uniques = self._uniques + [
             [(column if isinstance(column, Column) else Column(column)) for column in columns]
-        )
+        ]
 
     @builder
     def primary_key(self, *columns: str | Column) -> "Self":  # type:ignore[return]
